@@ -107,7 +107,7 @@ where
         self.interface.cmd_with_data(
             spi,
             Command::DriverOutputControl,
-            &[HEIGHT as u8, (HEIGHT >> 8) as u8, 0x00],
+            &[(HEIGHT - 1) as u8, ((HEIGHT - 1) >> 8) as u8, 0x00],
         )?;
 
         // 3 Databytes: (and default values from datasheet and arduino)
